@@ -7,8 +7,30 @@ it down, independent of the implementation:
 import Rmk.Proofs.Sizes
 import Rmk.Proofs.DecodeRoundtrip
 import Rmk.Proofs.DecodeSound
+import Rmk.Proofs.SerTree
 namespace Rmk.C02
 open Rmk
+
+/-- THE theorem: the library serialises by READING THE TREE (chunk reads with last-chunk trimming and
+    delimiter xor for bitfields, element nodes by index, a running offset and a temporary stream for
+    variable-size parts); for every tree that represents `v` — whatever its history — what is written
+    is exactly the SSZ serialisation of `v`, and the returned count is exactly its length. -/
+theorem serialize_from_tree (H : Hash) (t : Ty) (v : Val) (n : Node) (hwf : t.wf = true)
+    (hlim : ReprBasics.limitsOk t = true) (h : Impl.Repr H t v n) :
+    Impl.serTree H t n = some (Spec.serialize t v, (Spec.serialize t v).length) :=
+  SerTree.repr_ser H t v n hwf hlim h
+
+/-- in particular for every freshly constructed valid value -/
+theorem serialize_constructed (H : Hash) (t : Ty) (v : Val) (hwf : t.wf = true)
+    (hlim : ReprBasics.limitsOk t = true) (hwt : WT t v = true) :
+    ∃ n, Impl.construct H t v = some n ∧
+      Impl.serTree H t n = some (Spec.serialize t v, (Spec.serialize t v).length) :=
+  SerTree.construct_ser H t v hwf hlim hwt
+
+/-- the streaming offset loops of the library produce the spec's fixed-parts / offsets / variable-parts layout -/
+theorem streaming_is_interleaving (parts : List (Bool × List UInt8)) :
+    Impl.streamFields parts = (Spec.interleave parts, (Spec.interleave parts).length) :=
+  SerTree.streamFields_eq parts
 
 /-- the layout: total length = fixed parts (or 4-byte offsets) + variable parts -/
 theorem layout_length (parts : List (Bool × List UInt8)) :
